@@ -1,4 +1,5 @@
-// C02.2  long double comparison and truth test through real gen_expr on the ghost machine's x87 model: operands are
+// C02.2  long double arithmetic (operand order and instruction selection, on integer-valued operands with exact integer
+// results; MUL/DIV with 8-bit magnitudes), comparison and truth test through real gen_expr on the ghost machine's x87 model: operands are
 // integer-valued long doubles (|v| < 2^63) or a NaN.  == != < <= must be the IEEE relations (every comparison with a NaN
 // is false except !=), !x is (x == 0) with NaN non-zero.  KIND concrete per job; recursive contract, children abstract.
 #include "cg_harness.h"
@@ -9,11 +10,19 @@ void harness(void) {
   IN(int64_t, va); IN(int64_t, vb); IN(_Bool, na); IN(_Bool, nb);
   ASSUME((uint64_t)va != CG_LDNAN && (uint64_t)vb != CG_LDNAN);
   cg_node(&a, ND_NULL_EXPR, t); cg_node(&b, ND_NULL_EXPR, t);
-  cg_node(&n, KIND, &CGT[TI_INT]);
+  _Bool arith = KIND == ND_ADD || KIND == ND_SUB || KIND == ND_MUL || KIND == ND_DIV;
+  cg_node(&n, KIND, arith ? t : &CGT[TI_INT]);
   n.lhs = &a; n.rhs = (KIND == ND_NOT) ? 0 : &b;
   uint64_t want;
   _Bool un = na || (KIND != ND_NOT && nb);
+  if (arith) { ASSUME(!na && !nb); }                      /* arithmetic: integer-valued operands with an exactly representable integer result */
+  if (KIND == ND_ADD || KIND == ND_SUB) { ASSUME(va > -(1L << 60) && va < (1L << 60) && vb > -(1L << 60) && vb < (1L << 60)); }
+  if (KIND == ND_MUL) { ASSUME(va > -256 && va < 256 && vb > -256 && vb < 256); }
+  int64_t q = 0;
+  if (KIND == ND_DIV) { IN(int64_t, qq); q = qq; ASSUME(q > -256 && q < 256 && vb > -256 && vb < 256 && vb != 0 && va == q * vb); }   /* exact quotients only */
   switch (KIND) {
+  case ND_ADD: want = (uint64_t)(va + vb); break; case ND_SUB: want = (uint64_t)(va - vb); break;
+  case ND_MUL: want = (uint64_t)(va * vb); break; case ND_DIV: want = (uint64_t)q; break;
   case ND_EQ: want = !un && va == vb; break; case ND_NE: want = un || va != vb; break;
   case ND_LT: want = !un && va < vb; break; case ND_LE: want = !un && va <= vb; break;
   default: want = !na && va == 0; break;
